@@ -29,6 +29,10 @@ type c13Op struct {
 	Idx  int    `json:"idx,omitempty"`
 	Mode int    `json:"mode,omitempty"`
 	N    int    `json:"n,omitempty"`
+	// sub only: the caller of the replaced subscription is slow to let go (its
+	// context stays alive while 24 more messages are committed): the replaced
+	// subscription must stop delivering by itself
+	Slow bool `json:"slow,omitempty"`
 }
 
 type c13Case struct {
@@ -43,7 +47,7 @@ func genC13(t *rapid.T) c13Case {
 		switch rapid.SampledFrom([]string{"sub", "sub", "sub", "sub", "cancel", "cancel", "drain", "publish"}).Draw(t, "op") {
 		case "sub":
 			c.Ops = append(c.Ops, c13Op{Op: "sub", G: rapid.IntRange(0, 1).Draw(t, "g"), C: rapid.IntRange(0, 2).Draw(t, "c"),
-				E: rapid.IntRange(0, 4).Draw(t, "e"), Stop: rapid.SampledFrom([]int{0, 0, 0, 1}).Draw(t, "stop")})
+				E: rapid.IntRange(0, 4).Draw(t, "e"), Stop: rapid.SampledFrom([]int{0, 0, 0, 1}).Draw(t, "stop"), Slow: rapid.IntRange(0, 2).Draw(t, "slow") == 0})
 		case "cancel":
 			c.Ops = append(c.Ops, c13Op{Op: "cancel", Idx: rapid.IntRange(0, 30).Draw(t, "idx"), Mode: rapid.IntRange(0, 1).Draw(t, "mode")})
 		case "drain":
@@ -257,6 +261,51 @@ func runC13(c c13Case, o *vfutil.Obs) *vfutil.Failure {
 					o.Label("same-consumer-id-replacement")
 				}
 				h.state = "replaced"
+				if op.Slow && h.stop == 0 {
+					// the replaced subscription's caller keeps its context for a
+					// while and keeps receiving: a cancelled loop may hand over a
+					// message it already holds (the select between "deliver" and
+					// "cancelled" is a coin toss each time), but not 24 in a row
+					const more = 24
+					last := make(chan bool, 1)
+					stop := make(chan struct{})
+					go func() {
+						n := 0
+						for {
+							select {
+							case _, ok := <-h.sub.Messages():
+								if !ok {
+									last <- false
+									return
+								}
+								n++
+							case <-stop:
+								last <- n >= more
+								return
+							}
+						}
+					}()
+					// (what the replaced subscription had not delivered yet before
+					// the take-over does not count: wait until it is quiet first)
+					time.Sleep(2 * time.Millisecond)
+					before := p.log.NewestOffset()
+					publish(more)
+					hist = append(hist, fmt.Sprintf("publish(%d)-while-#%d-lingers", more, h.id))
+					// the new holder's loop has to get through them as well: give both time
+					deadline := time.Now().Add(5 * time.Second)
+					for time.Now().Before(deadline) {
+						time.Sleep(time.Millisecond)
+						if p.log.HighWatermark() >= before+more {
+							break
+						}
+					}
+					time.Sleep(20 * time.Millisecond)
+					close(stop)
+					if <-last {
+						return vfutil.Failf("C13/replaced-subscription-keeps-delivering", "step %d, history %v: #%d was replaced by #%d and cancelled, but with its caller's context alive it went on to deliver at least %d messages committed afterwards", step, hist, h.id, x.id, more)
+					}
+					o.Label("replaced-subscription-lingers")
+				}
 				h.cancel() // what api.Subscribe does when Closed() fires: it returns, which cancels the stream context
 				h.sub.Close()
 			} else {
